@@ -34,6 +34,7 @@ func init() {
 	execs["c14.v5verify"] = execC14V5Verify
 	execs["c14.decode"] = execC14Decode
 	execs["c14.expiry"] = execC14Expiry
+	execs["c14.entry"] = execC14Entry
 	gens["C14"] = genC14
 }
 
@@ -1380,6 +1381,82 @@ func execC14Expiry(in sx.V) sx.V {
 	return sx.L(sx.N(expiryObserved(uint32(d.List[1].U64()), explicit != nil, lifeNs, before, after)), d.List[2], sx.Nat(len(d.List[4].List)))
 }
 
+// ---- c14.entry: the same Sendables through every sending entry point
+
+var c14Entries = []string{"Send", "SendV2", "RawSend", "RawSendV2", "CreateMessageBody"}
+
+// (ver pk opts entry seqno valid sendables seed) -> (wallet-id seqno ((cell mode) ...) expiry|'default)
+func execC14Entry(in sx.V) sx.V {
+	l := in.List
+	ver := wallet.Version(l[0].I())
+	entry := l[3].I()
+	chain := &fakeChain{}
+	chain.state.Account.SumType = "AccountNone"
+	w, err := wallet.New(ed25519.NewKeyFromSeed(l[7].Bytes), ver, chain, woptsFromSx(l[2]).options()...)
+	if err != nil {
+		return sx.A("err")
+	}
+	var ss []wallet.Sendable
+	var raws []wallet.RawMessage
+	for _, e := range l[6].List {
+		sd := sendableFromSx(e)
+		ss = append(ss, sd.toSendable())
+		if entry == 2 || entry == 3 {
+			m, err := sd.raw()
+			if err != nil {
+				return sx.A("err")
+			}
+			raws = append(raws, m)
+		}
+	}
+	seqno, valid := uint32(l[4].U64()), time.Unix(l[5].Int.Int64(), 0)
+	rand.Seed(1)
+	ctx := context.Background()
+	var root *boc.Cell
+	switch entry {
+	case 0:
+		err = w.Send(ctx, ss...)
+	case 1:
+		_, err = w.SendV2(ctx, 0, ss...)
+	case 2:
+		err = w.RawSend(ctx, seqno, valid, raws, nil)
+	case 3:
+		_, err = w.RawSendV2(ctx, seqno, valid, raws, nil, 0)
+	default:
+		var body *boc.Cell
+		body, err = w.CreateMessageBody(wallet.MessageConfig{Seqno: seqno, ValidUntil: valid, V5MsgType: wallet.V5MsgTypeSignedExternal}, ss...)
+		if err == nil {
+			em, _ := ton.CreateExternalMessage(w.GetAddress(), body, nil, tlb.VarUInteger16{})
+			root = boc.NewCell()
+			if tlb.Marshal(root, em) != nil {
+				return sx.A("err")
+			}
+		}
+	}
+	if err != nil {
+		return sx.A("err")
+	}
+	if entry < 4 {
+		if len(chain.payloads) != 1 {
+			return sx.L(sx.A("harness-error"), sx.A("payloads"))
+		}
+		cells, perr := boc.DeserializeBoc(chain.payloads[0])
+		if perr != nil || len(cells) != 1 {
+			return sx.L(sx.A("harness-error"), sx.A("payload"))
+		}
+		root = cells[0]
+	}
+	d := decodeProj(ver, root)
+	if d.K != sx.KL {
+		return sx.A("err")
+	}
+	exp := sx.A("default")
+	if entry >= 2 {
+		exp = d.List[1]
+	}
+	return sx.L(d.List[0], d.List[2], d.List[4], exp)
+}
+
 var c14Lifetimes = []*int64{nil, i64p(30e9), i64p(1e9), i64p(86400e9), i64p(0), i64p(1500e6), i64p(-5e9), i64p(180e9), i64p(7 * 86400e9)}
 
 func i64p(f float64) *int64 { x := int64(f); return &x }
@@ -1746,6 +1823,64 @@ func genC14(c *Ctx) {
 				cells, _ := boc.DeserializeBoc(chain.payloads[0])
 				if d := decodeProj(ver, cells[0]); d.K != sx.KL || expiryObserved(uint32(d.List[1].U64()), false, lifeNs, before, after) != want {
 					c.Fail("c14.expiry", in, "c14-default-expiry", "SendV2 and CreateMessageBody of one wallet disagree on the default expiry")
+				}
+			}
+		}
+	}
+	// 5e. zero is a value, not "unset": the same Sendables through Send, SendV2, RawSend, RawSendV2 and CreateMessageBody;
+	// explicit zeros everywhere (mode 0, amount 0, bounce false, workchain 0, sub-wallet 0, network id 0, seqno 0,
+	// valid_until 0) and random mixes; the carried (cell, mode) lists must equal the request and each other
+	for vi, ver := range c14SendVersions {
+		for rep := 0; rep < c.Scale(2, 8); rep++ {
+			seed := c14Seed(r)
+			pk := ed25519.NewKeyFromSeed(seed).Public().(ed25519.PublicKey)
+			opts := randOpts(r)
+			seqno, valid := boundary32(r), boundaryUnix(r)
+			var sds []sendable
+			n := 1 + r.Intn(3)
+			for len(sds) < n {
+				sd := randSendable(r)
+				if _, err := sd.raw(); err == nil {
+					sds = append(sds, sd)
+				}
+			}
+			if rep == 0 { // everything explicitly zero
+				z, zu, zn := 0, uint32(0), int32(0)
+				opts = wopts{wc: &z, sub: &zu, net: &zn}
+				seqno, valid = 0, 0
+				sds = []sendable{{kind: 0, amount: 0, wc: 0, addr: make([]byte, 32), bounce: false, mode: 0},
+					{kind: 0, amount: 1, wc: 0, addr: r.Bytes(32), bounce: true, mode: 3},
+					{kind: 0, amount: 0, wc: -1, addr: r.Bytes(32), bounce: false, mode: 0, body: boc.NewCell()}}
+			}
+			if valid == -62135596800 {
+				valid = 0
+			}
+			var ssx []sx.V
+			var want rawMsgs
+			for _, sd := range sds {
+				ssx = append(ssx, sd.sx())
+				m, _ := sd.raw()
+				want = append(want, m)
+			}
+			var outs []string
+			for entry := range c14Entries {
+				if !c.Thorough() && rep > 0 && (entry+vi+rep)%2 == 1 {
+					continue
+				}
+				in := sx.L(sx.Nat(int(ver)), sx.Bytes(pk), opts.sx(), sx.Nat(entry), sx.N(uint64(seqno)), sx.Z(valid), sx.L(ssx...), sx.Bytes(seed))
+				out := c.Emit("c14.entry", in, fmt.Sprintf("entry|%s|v%d|zero=%v", c14Entries[entry], int(ver), rep == 0))
+				if out.K != sx.KL {
+					c.Fail("c14.entry", in, "c14-entry-failed", c14Entries[entry]+" failed on valid Sendables")
+					continue
+				}
+				if out.List[2].String() != want.sx().String() {
+					c.Fail("c14.entry", in, "c14-entry-modes", c14Entries[entry]+": the carried (message, mode) list differs from the requested one: "+trunc(out.List[2].String(), 200))
+				}
+				outs = append(outs, out.List[2].String())
+			}
+			for _, o := range outs {
+				if o != outs[0] {
+					c.Fail("c14.entry", sx.L(ssx...), "c14-entry-siblings", "the entry points carry different message lists for the same Sendables")
 				}
 			}
 		}
